@@ -97,6 +97,8 @@ def run(c):
     def confirm(idx, t):
         return confirm_by_tlc(c, drv, cases[idx], "Trace_C03", t[2], context=cases[max(0, idx - 2):idx])
     c.triage(mism, classify, confirm)
+    def _c(e): e["e2"] = e["e2"][:-1] + [(e["e2"][-1] + 1) % 256]; return e
+    binding_selftest(c, "Trace_C03", events, lambda x: '"e2ok":true' in x, _c, "the last octet of the second re-encoding changed")
     c.cov["accepted_inputs"] = acc
     c.cov["rule"] = "cases = decode-encode-decode-encode chains on the real code; distinct non-trivial = distinct inputs the real decoder accepted (the laws say nothing about rejected inputs)"
     for i in (0, len(events) // 2, len(events) - 1):
